@@ -5,6 +5,7 @@ sources, called through the real Python front ends.  Simulator-owned seams:
 the PCG random stream (pass-through-and-record or scripted), `time()`, and
 the heap (poison + red zones, or ASan in the `san` build).
 """
+import json
 import math
 import warnings
 from fractions import Fraction
@@ -232,10 +233,39 @@ class World(BaseWorld):
         else:
             op["schedule"] = []
 
-    def gen_anneal(self, rng):
+    def gen_live_edit(self, rng):
+        """The caller keeps a model OBJECT, edits it in place between annealer calls (zeroing a term, adding a term at a
+        larger index and cancelling it again, changing a coefficient) and anneals the same object again."""
+        fn, m = self.live_desc
+        m = {k: (list(v) if isinstance(v, list) else v) for k, v in m.items()}
+        poly, reported = self.model_info(fn, m)
+        labels = sorted(reported, key=sort_key)
+        new = []
+        how = rng.choice(["zero_term", "grow_then_cancel", "change", "zero_term"])
+        nz = [k for k in poly.t if k]
+        if how == "zero_term" and nz:
+            k = tuple(sorted(rng.choice(sorted(nz, key=lambda x: sorted(map(repr, x)))), key=sort_key))
+            new.append([enc_key(k), -float(poly.t[frozenset(k)]) if poly.t[frozenset(k)].denominator != 1 else -int(poly.t[frozenset(k)])])
+        elif how == "grow_then_cancel" and m["type"] in MATRIX and labels:
+            big = max(labels) + rng.randint(1, 3)
+            new.append([[big], 1])
+            new.append([[big], -1])
+        elif labels:
+            new.append([enc_key((rng.choice(labels),)), rng.choice([1, -1, 2])])
+        if not new:
+            return None
+        m["edits"] = list(m.get("edits", [])) + new
+        m["live"] = True
+        m["new_edits"] = new
+        return self.gen_anneal(rng, fn=fn, m=m)
+
+    def gen_anneal(self, rng, fn=None, m=None):
         c = self.cfg
-        fn = rng.choice(c["fns"])
-        m = self.gen_model(rng, fn)
+        if fn is None:
+            fn = rng.choice(c["fns"])
+            m = self.gen_model(rng, fn)
+            if m["type"] != "dict" and rng.random() < c.get("p_live", 0.15):
+                m["keep"] = True
         poly, reported = self.model_info(fn, m)
         op = {"op": "anneal", "fn": fn, "model": m}
         op["num_anneals"] = rng.choice(c["num_anneals"])
@@ -273,7 +303,7 @@ class World(BaseWorld):
         # which RNG fault
         kinds = [("pass", c["w_pass"]), ("script_uniform", c["w_script"]), ("extreme", c["w_extreme"]), ("raw", c.get("w_raw", 1))]
         can_refine = (fn, m["type"]) in MATRIX_ROUTE and op["initial_state"] is not None and not isinstance(op["schedule"], str) and op["num_anneals"] > 0 \
-            and not m["edits"] and len(universe) <= 10
+            and (not m["edits"] or fn in ("quso", "puso")) and len(universe) <= 10
         if can_refine:
             kinds.append(("boundary", c["w_boundary"]))
         mode = choose_weighted(rng, kinds)
@@ -357,6 +387,10 @@ class World(BaseWorld):
             else:
                 of = rng.randrange(len(self.calls))
             return {"op": "repeat", "of": of, "clock": [rng.choice([0, 5, -1, 10**9, 2**32 + 7, rng.randrange(2**31)])]}
+        if getattr(self, "live_desc", None) is not None and rng.random() < 0.6:
+            op = self.gen_live_edit(rng)
+            if op is not None:
+                return op
         if c["p_dist"] and rng.random() < c["p_dist"]:
             return self.gen_dist(rng)
         if c.get("p_huge") and rng.random() < c["p_huge"]:
@@ -404,7 +438,17 @@ class World(BaseWorld):
     def do_call(self, op, clock=None, log=True):
         """Performs the annealer call under the simulator's seams."""
         fn = self.fns[op["fn"]]
-        model = self.build_model(op["model"])
+        md = op["model"]
+        live = getattr(self, "live_obj", None)
+        if md.get("live") and live is not None and live[1] == (op["fn"], md["type"], json.dumps(md["terms"], sort_keys=True)):
+            model = live[0]
+            for k, delta in md.get("new_edits", []):
+                model[dec_key(k)] += delta
+            self.fault("live_model_edited_between_calls")
+        else:
+            model = self.build_model(md)
+        if md.get("keep") or md.get("live"):
+            self.live_obj = (model, (op["fn"], md["type"], json.dumps(md["terms"], sort_keys=True)))
         init = dec_state(op["initial_state"]) if op.get("initial_state") is not None else None
         init_copy = dict(init) if init is not None else None
         before = self.snapshot(model)
@@ -572,8 +616,10 @@ class World(BaseWorld):
                     continue
                 if v > e0:
                     self.fail("zero_temperature_increase", "result %d: value %s > value of initial state %s" % (idx, v, e0))
-        if (op["fn"], m["type"]) not in MATRIX_ROUTE or m["edits"] or not reported:
+        if (op["fn"], m["type"]) not in MATRIX_ROUTE or not reported:
             return
+        if m["edits"] and op["fn"] not in ("quso", "puso"):
+            return      # the boolean front ends rebuild the model, so a cancelled top index changes the spin count
         N = max(reported) + 1
         if N > 12:
             return
@@ -671,6 +717,8 @@ class World(BaseWorld):
         if unrepl:
             self.probe("unreplayable_unseeded_calls")
             digest = ["unseeded", len(digest) if isinstance(digest, list) else 0]
+        if record and (op["model"].get("keep") or op["model"].get("live")):
+            self.live_desc = (op["fn"], {k: v for k, v in op["model"].items() if k not in ("keep", "live", "new_edits")})
         if record:
             rec = dict(op)
             n = max(op.get("num_anneals", 1), 0)
@@ -691,6 +739,7 @@ class World(BaseWorld):
             return ["repeat", "none"]
         of = op["of"] % len(self.calls)
         orig = {k: v for k, v in self.calls[of].items() if not k.startswith("_")}
+        orig["model"] = {k: v for k, v in orig["model"].items() if k not in ("keep", "live", "new_edits")}
         immediate = of == len(self.calls) - 1 and getattr(self, "last", (None,))[0] is not None and self.last[0].get("op") == "anneal"
         self.fault("history_repeat")
         if orig.get("clock") != op.get("clock"):
@@ -850,7 +899,7 @@ def gen_cfg(rng, prop, tier):
         "p_matrix": rng.choice([0.0, 0.3, 0.6, 0.9]),
         "p_gap": rng.choice([0.0, 0.3, 0.6]),
         "p_offset": rng.choice([0.0, 0.3, 0.7]),
-        "p_set_mapping": rng.choice([0.0, 0.15, 0.4]), "p_stale": rng.choice([0.0, 0.0, 0.15, 0.4]), "p_zero_entry": rng.choice([0.0, 0.1, 0.3]),
+        "p_set_mapping": rng.choice([0.0, 0.15, 0.4]), "p_live": rng.choice([0.0, 0.15, 0.4]), "p_stale": rng.choice([0.0, 0.0, 0.15, 0.4]), "p_zero_entry": rng.choice([0.0, 0.1, 0.3]),
         "p_init": rng.choice([0.0, 0.4, 0.8, 1.0]),
         "num_anneals": rng.choice([[1], [1, 2, 5], [-1, 0, 1, 2, 5], [2, 3], [1, 2, 5, 9], [7, 16, 33]]),
         "w_default_sched": rng.choice([0.3, 1, 3]),
